@@ -2,6 +2,8 @@ CONSTANTS
   HUGE = 1000000
   Roots <- RootsQuick
   MaxObjs = 4
+  MaxObjsWide = 3
+  Deep = FALSE
 SPECIFICATION Spec
 VIEW View
 INVARIANTS DesignOK EmitCase
